@@ -298,7 +298,8 @@ fn format_expression_internal(
                     })
                     .collect();
 
-                format_expression(ctx, expression, shape)
+                // Keep the context: the inner expression takes the position of the removed parentheses
+                format_expression_internal(ctx, expression, context, shape)
                     .update_leading_trivia(FormatTriviaType::Append(leading_comments))
                     .update_trailing_trivia(FormatTriviaType::Append(trailing_comments))
             } else {
@@ -396,10 +397,19 @@ pub fn is_brackets_string(expression: &Expression) -> bool {
         Expression::BinaryOperator { lhs, .. } => is_brackets_string(lhs),
         // Redundant parentheses around a string will be removed, i.e. `([[string]])`
         Expression::Parentheses { expression, .. } => {
-            matches!(
+            #[cfg(feature = "luau")]
+            let removed = matches!(
+                &**expression,
+                Expression::String(_)
+                    | Expression::Parentheses { .. }
+                    | Expression::TypeAssertion { .. }
+            );
+            #[cfg(not(feature = "luau"))]
+            let removed = matches!(
                 &**expression,
                 Expression::String(_) | Expression::Parentheses { .. }
-            ) && is_brackets_string(expression)
+            );
+            removed && is_brackets_string(expression)
         }
         _ => false,
     }
